@@ -180,6 +180,11 @@ def run(rep, tier, seed):
     results = t3.run_many(case, [(seed, i) for i in range(n)])
     results += t3.run_many(same_task_members_case, [(seed, i) for i in range(n // 4)])
     results += t3.run_many(two_joined_ports_case, [(seed, i) for i in range(n // 4)])
+    # sub-streams delivered by a component other than StreamToSubStream, on the carrier's own sub-stream port (checks/c08.py)
+    from checks import c08 as _c08
+    for r in t3.run_many(_c08.grouped_case, [(seed, i) for i in range(n // 8)]):
+        r.setdefault("L", r["ntasks"]); r.setdefault("sep", " ")
+        results.append(r)
     found = t3.report_t3(rep, MODULE, proved, results, "T3 sub-streams / T2 join branch")
     lines = t2_lines(rng, 500 if tier == "quick" else 10000)
     diffs, impl, model = vlib.t2_compare("format", lines)
